@@ -386,7 +386,7 @@ pub fn run(ctx: &Ctx) -> Rec {
   rec.merge(par_run(ctx, "replay-flood", ctx.n(4, 16), |rec, i, rng| replay_flood(rec, ctx, i, rng)));
   // every threshold 1..=T once (O(t^2) each)
   // (scaled down in the auxiliary stages: the overflow-checked dev build is an order of magnitude slower)
-  let tmax: u64 = (((if ctx.thorough() { 1400 } else { 320 }) as f64) * ctx.scale.min(1.0)).ceil() as u64;
+  let tmax: u64 = (((if ctx.thorough() { 1024 } else { 320 }) as f64) * ctx.scale.min(1.0)).ceil() as u64;
   rec.merge(par_run(ctx, "threshold-sweep", tmax, |rec, i, rng| threshold_sweep(rec, ctx, tmax - 1 - i, rng)));
   rec.note("threshold_sweep_max", json!(tmax));
   let _ = HashMap::<u8, u8>::new();
